@@ -237,7 +237,17 @@ func (g *gen) addEnum(pkg *Pkg, file *File, constFile *File) *tinfo {
 	}
 	if firstExported != nil && rapid.IntRange(0, 7).Draw(t, "aliasConst") == 0 && !g.o.gated("enum_unexported_alias") {
 		an := g.constName(pkg, name, 20, false, "aliasName")
-		constFile.Consts = append(constFile.Consts, &Block{Grouped: false, Specs: []*ConstSpec{{
+		af := constFile
+		if len(pkg.Files) > 1 && rapid.Bool().Draw(t, "aliasOtherFile") {
+			// the members of one enum are then spread over two files of the package
+			for _, f := range pkg.Files {
+				if f != constFile {
+					af = f
+				}
+			}
+			g.o.class("enum:members_in_two_files")
+		}
+		af.Consts = append(af.Consts, &Block{Grouped: false, Specs: []*ConstSpec{{
 			Names: []string{an}, Exprs: []string{firstExported.Names[0]}, Vals: []string{firstExported.Vals[0]}, OfType: []string{name},
 		}}})
 		g.o.class("enum:unexported_alias_of_exported")
